@@ -30,7 +30,7 @@ class A:
 
     def __init__(self, ret=None, requires=None, ensures=None, decreases=None, spec_raw=None, loops=None, closures=None,
                  body_begin=None, body_end=None, arm_begin=None, arm_end=None, after=None, before=None, attrs=None,
-                 rewrites=None, props=(), external_body=False, note=None, params_mut=None, no_canary=False, arm_rewrites=None, stub=False):
+                 rewrites=None, props=(), external_body=False, note=None, params_mut=None, no_canary=False, arm_rewrites=None, stub=False, arm_replace=None):
         self.ret = ret                      # name for the return value
         self.requires = requires or []      # list of (name, text)
         self.ensures = ensures or []        # list of (name, text)
@@ -50,6 +50,7 @@ class A:
         self.external_body = external_body
         self.note = note
         self.no_canary = no_canary
+        self.arm_replace = arm_replace or {}     # pattern -> (new body text, reason): the arm's body is NOT verified (dropped, replaced by a trampoline call)
         self.stub = stub                    # keep the signature verbatim, drop the body (external_body + unimplemented!()): callee known by contract only
         if stub:
             self.external_body = True
@@ -105,6 +106,7 @@ class Unit:
         self.dropped = set()
         self.rewrites_applied = []
         self.assumption_notes = []
+        self.lemmas = []            # (name of a proof fn in the raw text, props): counted as one obligation each
 
     def src(self, rel):
         if rel not in self.sources:
@@ -629,6 +631,15 @@ def _emit_item(unit, g, src, it, iid, label, a, fnq, emit, canary, spec):
                 apply_rewrites_tokens(src, r[2], r[3], rws, em, rw_applied, label + f' arm `{pat}`')
                 if len(rw_applied) - n0 != len(rws):
                     raise LostAnchor(f'{fnq}: arm `{pat}`: a declared rewrite did not match')
+        if a.arm_replace and not a.external_body:
+            blo, bhi = it.body_open + 1, src.br[it.body_open]
+            for key, (new, reason) in a.arm_replace.items():
+                pat, occ = (key, 0) if isinstance(key, str) else key
+                r = rscan.find_arm(src.toks, src.br, blo, bhi, pat, occ)
+                if r is None:
+                    raise LostAnchor(f'{fnq}: match arm `{pat}` #{occ} not found (arm replace)')
+                em.replace_toks(r[2], r[3], new)
+                rw_applied.append(dict(item=label + f' arm `{pat}`', old=None, new=new, reason='ARM BODY DROPPED: ' + reason, count=1, positions=[(r[2], r[3])]))
         annotate_fn(unit, src, it, fnq, a, em, canary)
     else:
         for at in a.attrs:
